@@ -11,6 +11,9 @@ the combined statements (`basic_gate_table`, …) are derived from the two.
 import NumqiProofs.CliffordLemmas
 import NumqiProofs.CliffordAlgebra
 import NumqiProofs.CliffordEmbed
+import NumqiProofs.CliffordCircuit
+import Mathlib.Analysis.Real.Sqrt
+import Mathlib.Data.Complex.Basic
 
 namespace Numqi.C07
 open Numqi Numqi.Clifford
@@ -21,16 +24,16 @@ open Numqi Numqi.Clifford
 rejected arguments, the `I` no-op, `to_symplectic_form`, `apply_pauli_F2`, `to_universal_circuit`, in any order), the
 outputs of the object with its `_R/_S` cache equal the outputs of the cache-free specification, in which every query is
 computed from *all* gates recorded before it. -/
-theorem history_independent (ops : List Op) : run St.init ops = specRun [] ops :=
+theorem history_independent (ops : List Clifford.Op) : run St.init ops = specRun [] ops :=
   run_spec ops St.init inv_init
 
 /-- the same from any reachable state: the invariant `cache = none ∨ cache = tableau of the recorded gates` is kept by
 every operation -/
-theorem cache_invariant (st : St) (h : Inv st) (op : Op) : Inv (step st op).1 := (step_spec st h op).2.2
+theorem cache_invariant (st : St) (h : Inv st) (op : Clifford.Op) : Inv (step st op).1 := (step_spec st h op).2.2
 
 /-- a query answers with the tableau of exactly the recorded gates (specification unfolded once) -/
-theorem query_reflects_all_gates (ops : List Op) (gates : List Gate) :
-    specRun gates (ops ++ [Op.query]) = specRun gates ops ++
+theorem query_reflects_all_gates (ops : List Clifford.Op) (gates : List Gate) :
+    specRun gates (ops ++ [Clifford.Op.query]) = specRun gates ops ++
       [match symplecticOf (ops.foldl (fun g op => (specStep g op).1) gates) with
         | .ok t => Out.tab t
         | .error e => Out.err e] := by
@@ -45,7 +48,7 @@ theorem query_reflects_all_gates (ops : List Op) (gates : List Gate) :
 /-- **Why the invalidation matters**: the object *without* the reset of `_R/_S` in the gate-recording methods (the code
 before the fix) answers the second query of `H 0; query; S 0; query` with the stale `H`-only tableau. -/
 theorem stale_without_invalidation :
-    let ops := [Op.append .H [0], Op.query, Op.append .S [0], Op.query]
+    let ops := [Clifford.Op.append .H [0], Clifford.Op.query, Clifford.Op.append .S [0], Clifford.Op.query]
     runStale St.init ops ≠ specRun [] ops ∧
     (runStale St.init ops).getD 3 .unit = (runStale St.init ops).getD 1 .unit ∧
     (run St.init ops).getD 3 .unit ≠ (run St.init ops).getD 1 .unit := by
@@ -53,19 +56,14 @@ theorem stale_without_invalidation :
 
 /-! ### the eight basic gates: tableau action = conjugation -/
 
-/-- the tableaux of the adjoint gates, as literals -/
-def dagTable : GateKey → Tab
-  | .X => ⟨1, 2, [1, 2]⟩ | .Y => ⟨1, 3, [1, 2]⟩ | .Z => ⟨1, 1, [1, 2]⟩ | .H => ⟨1, 0, [2, 1]⟩ | .S => ⟨1, 1, [3, 2]⟩
-  | .CX => ⟨2, 0, [3, 2, 4, 12]⟩ | .CY => ⟨2, 0, [11, 6, 4, 12]⟩ | .CZ => ⟨2, 0, [9, 6, 4, 8]⟩
-
 /-- `_basic_clifford_dagger_f2(key)` — i.e. `clifford_array_to_F2` run on the adjoint gate matrix — returns these -/
-theorem basicDaggerF2_eq (key : GateKey) : basicDaggerF2 key = some (dagTable key) := by
-  cases key <;> decide +kernel
+theorem basicDaggerF2_eq (key : GateKey) : basicDaggerF2 key = some (dagTable key) :=
+  basicDaggerF2_dagTable key
 
 /-- the gate matrices are unitary up to the recorded scale: `G† G = c·1` (`c = 2` for the integer form `√2·H`) -/
 theorem gate_unitary (key : GateKey) :
-    Mat.mul (2 ^ key.arity) (Mat.dagger (2 ^ key.arity) key.mat) key.mat =
-      Mat.scale key.scale (pauliMat key.arity ⟨false, false, 0⟩) := by
+    Clifford.Mat.mul (2 ^ key.arity) (Clifford.Mat.dagger (2 ^ key.arity) key.mat) key.mat =
+      Clifford.Mat.scale key.scale (pauliMat key.arity ⟨false, false, 0⟩) := by
   cases key <;> decide +kernel
 
 /-- the bit-mask form of the Pauli matrix entries used below is the matrix semantics of C08 (`Pauli.matExp`, for which
@@ -96,7 +94,7 @@ theorem basic_gate_table (key : GateKey) (t : Tab) (ht : basicDaggerF2 key = som
   exact h2 p hp
 
 private theorem embed_lit : GateKey.all.all (fun key => (placements 2 key.arity).all fun qs =>
-    (allPaulis 2).all (intertwines 2 key.mat qs (embed 2 (dagTable key) qs))) = true := by
+    (allPaulis 2).all (intertwines 2 key.mat qs (Clifford.embed 2 (dagTable key) qs))) = true := by
   decide +kernel
 
 /-- **Placement on two qubits.**  For every gate, every placement on a 2-qubit register (both orders of control and
@@ -104,7 +102,7 @@ target for the two-qubit gates) and all 64 phased Paulis: the embedded tableau u
 intertwines `P` with the dense operator of the placed gate. -/
 theorem embedded_gate_table (key : GateKey) (t : Tab) (ht : basicDaggerF2 key = some t) (qs : List Nat)
     (hqs : qs ∈ placements 2 key.arity) (p : PauliB) (hp : p ∈ allPaulis 2) :
-    intertwines 2 key.mat qs (embed 2 t qs) p = true := by
+    intertwines 2 key.mat qs (Clifford.embed 2 t qs) p = true := by
   rw [basicDaggerF2_eq] at ht
   cases ht
   have h := embed_lit
@@ -117,7 +115,7 @@ theorem embedded_gate_table (key : GateKey) (t : Tab) (ht : basicDaggerF2 key = 
 
 private theorem embed_local_lit : ([1, 2, 3] : List Nat).all (fun n => GateKey.all.all fun key =>
     (placements n key.arity).all fun qs => (allPaulis n).all fun p =>
-      applyOnPauli p (embed n (dagTable key) qs) == liftP n qs p (applyOnPauli (restrictP n qs p) (dagTable key))) = true := by
+      applyOnPauli p (Clifford.embed n (dagTable key) qs) == liftP n qs p (applyOnPauli (restrictP n qs p) (dagTable key))) = true := by
   decide +kernel
 
 /-- **Embedding acts locally, phase included** (registers of 1–3 qubits, every gate, every placement, all Paulis):
@@ -126,7 +124,7 @@ gate's own tableau does (so `basic_gate_table` transfers to placed gates). -/
 theorem embed_local_table (n : Nat) (hn : n ∈ ([1, 2, 3] : List Nat)) (key : GateKey) (loc : Tab)
     (hl : basicDaggerF2 key = some loc) (qs : List Nat) (hqs : qs ∈ placements n key.arity)
     (p : PauliB) (hp : p ∈ allPaulis n) :
-    applyOnPauli p (embed n loc qs) = liftP n qs p (applyOnPauli (restrictP n qs p) loc) := by
+    applyOnPauli p (Clifford.embed n loc qs) = liftP n qs p (applyOnPauli (restrictP n qs p) loc) := by
   rw [basicDaggerF2_eq] at hl
   cases hl
   have h := embed_local_lit
@@ -165,7 +163,7 @@ theorem apply_identity (n : Nat) (p : PauliB) (hp : p.v < 4 ^ n) : applyOnPauli 
 /-- **An embedded symplectic tableau is symplectic**, for every register size `n` and every placement on pairwise
 distinct qubits below `n` (what `to_symplectic_form` multiplies with) -/
 theorem embed_colSp_all (n : Nat) (qs : List Nat) (hnd : qs.Nodup) (hlt : ∀ q ∈ qs, q < n) (loc : Tab)
-    (hk : loc.n = qs.length) (hloc : loc.colSp = true) : (embed n loc qs).colSp = true :=
+    (hk : loc.n = qs.length) (hloc : loc.colSp = true) : (Clifford.embed n loc qs).colSp = true :=
   embed_colSp ⟨hnd, hlt⟩ loc hk hloc
 
 /-- the eight adjoint-gate tableaux have the right size and are symplectic -/
@@ -174,8 +172,8 @@ theorem dagger_tableaux_symplectic (k : GateKey) :
   ⟨dagTable k, basicDaggerF2_eq k, by cases k <;> rfl, by cases k <;> decide⟩
 
 /-- every gate record produced by method calls is well formed (index count = arity, indices pairwise distinct) -/
-theorem recorded_gates_wf (ops : List Op) : GatesWF (ops.foldl (fun g op => (specStep g op).1) []) := by
-  have key : ∀ (ops : List Op) (gates : List Gate), GatesWF gates →
+theorem recorded_gates_wf (ops : List Clifford.Op) : GatesWF (ops.foldl (fun g op => (specStep g op).1) []) := by
+  have key : ∀ (ops : List Clifford.Op) (gates : List Gate), GatesWF gates →
       GatesWF (ops.foldl (fun g op => (specStep g op).1) gates) := by
     intro ops
     induction ops with
@@ -190,6 +188,104 @@ theorem circuit_sequential (gates : List Gate) (hwf : GatesWF gates) (t : Tab) (
     ∃ n, numQubit gates = .ok n ∧ t.n = n ∧
       ∀ p, applyOnPauli p t = gates.reverse.foldl (gateAct n) (applyOnPauli p (Tab.id n)) :=
   symplecticOf_sequential' gates hwf dagger_tableaux_symplectic t h
+
+/-! ### end to end: the tableau answer is conjugation by the unitary of the exported circuit (C03), every `n` -/
+
+section conj
+variable {R : Type} [CommRing R]
+
+/-- **One placed gate, every register size.**  For each of X, Y, Z, H, S (any qubit) and CX, CY, CZ (any ordered pair of
+distinct qubits) of an `n`-qubit register and every phased Pauli `P`: `P · G = G · Q`, where `G` is the operator C03
+assigns to the exported gate (`embed` of the one-qubit matrix, `ctrlEmbed` of X/Y/Z controlled by the first index; `h` is
+the normalisation of `H`) and `Q` the answer of the gate's embedded adjoint tableau; `Q` is again an `n`-qubit Pauli. -/
+theorem gate_conjugation_placed {I : R} (hI : I * I = -1) (h : R) (n : Nat) (g : Gate)
+    (hlen : g.idx.length = g.key.arity) (hnd : g.idx.Nodup) (hlt : ∀ q ∈ g.idx, q < n)
+    (p : PauliB) (hp : p.v < 4 ^ n) :
+    PM n I p * gateMatrixN I h n g = gateMatrixN I h n g * PM n I (gateAct n p g) ∧ (gateAct n p g).v < 4 ^ n :=
+  gate_conjugation hI h n g hlen hnd hlt p hp
+
+/-- **End to end, any commutative ring with `I² = −1`** (no division, no star): for every well-formed recorded gate list and
+every phased Pauli `P` on its `n` qubits, `P · U = U · answer`, `answer = apply_clifford_on_pauli(P, to_symplectic_form())`,
+`U = circuitUnitary` = ordered product of the exported gates' operators. -/
+theorem circuit_conjugation_intertwine {I : R} (hI : I * I = -1) (h : R) (gates : List Gate) (hwf : GatesWF gates)
+    (t : Tab) (ht : symplecticOf gates = .ok t) :
+    ∃ n, numQubit gates = .ok n ∧ t.n = n ∧ ∀ p : PauliB, p.v < 4 ^ n →
+      PM n I p * circuitUnitary I h n gates = circuitUnitary I h n gates * PM n I (applyOnPauli p t) :=
+  circuit_conjugation_all hI h gates hwf t ht
+
+/-- the exported universal circuit (`to_universal_circuit`) is accepted by C03's index resolution … -/
+theorem export_compiles (I h : R) (gates : List Gate) (hwf : GatesWF gates) (n : Nat) (hn : numQubit gates = .ok n) :
+    ∃ ops : List (Numqi.Op n R), compileCircuit n (gates.map (exportRaw I h)) = some ops :=
+  compileCircuit_export_isSome I h n gates hwf (fun g hg q hq => numQubit_spec hn g hg q hq)
+
+/-- … and `U` is literally C03's `Circuit.to_unitary` of it: `P · toUnitary = toUnitary · answer`. -/
+theorem circuit_conjugation_toUnitary {I : R} (hI : I * I = -1) (h : R) (gates : List Gate) (hwf : GatesWF gates)
+    (t : Tab) (ht : symplecticOf gates = .ok t) :
+    ∃ n, numQubit gates = .ok n ∧ t.n = n ∧
+      ∀ ops : List (Numqi.Op n R), compileCircuit n (gates.map (exportRaw I h)) = some ops →
+        ∀ p : PauliB, p.v < 4 ^ n →
+          PM n I p * Matrix.of (toUnitary ops) = Matrix.of (toUnitary ops) * PM n I (applyOnPauli p t) :=
+  Clifford.circuit_conjugation_toUnitary hI h gates hwf t ht
+
+/-- the unitary of the exported circuit is unitary (star ring, `star I = −I`, `h` real with `2h² = 1`) -/
+theorem circuit_unitary_is_unitary [StarRing R] {I h : R} (hI : I * I = -1) (hs : star I = -I) (hh : star h = h)
+    (h2 : 2 * (h * h) = 1) (n : Nat) (gates : List Gate) (hwf : GatesWF gates) :
+    circuitUnitary I h n gates ∈ Matrix.unitaryGroup (Bits n) R :=
+  circuitUnitary_unitary hI hs hh h2 n gates hwf
+
+/-- **`circuit_conjugation`.**  Over a commutative star ring with `I² = −1`, `star I = −I` and a real `h` with `2h² = 1`
+(`ℂ`, `Complex.I`, `1/√2`): for every well-formed recorded `CliffordCircuit` gate list on `n` qubits and every phased
+Pauli `P`, the tableau simulator's answer is the F2 form of `U† P U`, `U` the unitary of the exported universal circuit —
+phase included, for all `n`. -/
+theorem circuit_conjugation [StarRing R] {I h : R} (hI : I * I = -1) (hs : star I = -I) (hh : star h = h)
+    (h2 : 2 * (h * h) = 1) (gates : List Gate) (hwf : GatesWF gates) (t : Tab) (ht : symplecticOf gates = .ok t) :
+    ∃ n, numQubit gates = .ok n ∧ t.n = n ∧ ∀ p : PauliB, p.v < 4 ^ n →
+      (circuitUnitary I h n gates)ᴴ * PM n I p * circuitUnitary I h n gates = PM n I (applyOnPauli p t) :=
+  circuit_conjugation_star hI hs hh h2 gates hwf t ht
+
+/-! ### tableau extraction (`clifford_array_to_F2`) -/
+
+/-- `clifford_array_to_F2` returns the tableau stored (`tabOfImages`) from the images `U X_q U†`, `U Z_q U†` that
+`from_full_matrix` recognises -/
+theorem arrayToF2_returns_tabOfImages {k : Nat} {U : Clifford.Mat} {T : Tab} (h : arrayToF2 k U = some T) :
+    ∃ imgs : List PauliB, imgs.length = 2 * k ∧ T = tabOfImages k imgs ∧
+      ∀ j, j < 2 * k → ofFullMatrix k ((Clifford.Mat.mul (2 ^ k) U (Clifford.Mat.dagger (2 ^ k) U)).get 0 0)
+        (Clifford.Mat.mul (2 ^ k) (Clifford.Mat.mul (2 ^ k) U (pauliMat k (genPauli k (j % k) (decide (k ≤ j))))) (Clifford.Mat.dagger (2 ^ k) U))
+          = some (imgs.getD j ⟨false, false, 0⟩) :=
+  arrayToF2_spec h
+
+/-- **Tableau extraction is sound.**  If the stored images `W_j` are Hermitian, the stored tableau is symplectic, and
+`U g_j = W_j U` for the `2n` generators (`W_j = U g_j U†`), then for every phased Pauli `U P = apply(P, T) U`:
+`apply_clifford_on_pauli(P, clifford_array_to_F2(U))` is the F2 form of `U P U†`. -/
+theorem array_to_F2_sound {n : Nat} {I : R} (hI : I * I = -1) (imgs : List PauliB)
+    (hherm : ∀ j, j < 2 * n → (imgs.getD j ⟨false, false, 0⟩).s1 =
+      (cnt n (imgs.getD j ⟨false, false, 0⟩).v ((imgs.getD j ⟨false, false, 0⟩).v >>> n) % 2 == 1))
+    (hsp : (tabOfImages n imgs).colSp = true) (U : Matrix (Bits n) (Bits n) R)
+    (himg : ∀ j, j < 2 * n → U * PM n I (gen j) = PM n I (imgs.getD j ⟨false, false, 0⟩) * U)
+    (p : PauliB) (hp : p.v < 4 ^ n) :
+    U * PM n I p = PM n I (applyOnPauli p (tabOfImages n imgs)) * U :=
+  tableau_of_images hI imgs hherm hsp U himg p hp
+
+/-- the same with a unitary `U`: `U P U† = apply(P, T)` -/
+theorem array_to_F2_sound_unitary [StarRing R] {n : Nat} {I : R} (hI : I * I = -1) (imgs : List PauliB)
+    (hherm : ∀ j, j < 2 * n → (imgs.getD j ⟨false, false, 0⟩).s1 =
+      (cnt n (imgs.getD j ⟨false, false, 0⟩).v ((imgs.getD j ⟨false, false, 0⟩).v >>> n) % 2 == 1))
+    (hsp : (tabOfImages n imgs).colSp = true) (U : Matrix (Bits n) (Bits n) R) (hU : U * Uᴴ = 1)
+    (himg : ∀ j, j < 2 * n → U * PM n I (gen j) * Uᴴ = PM n I (imgs.getD j ⟨false, false, 0⟩))
+    (p : PauliB) (hp : p.v < 4 ^ n) :
+    U * PM n I p * Uᴴ = PM n I (applyOnPauli p (tabOfImages n imgs)) :=
+  tableau_of_images_unitary hI imgs hherm hsp U hU himg p hp
+
+end conj
+
+/-- the hypotheses of `circuit_conjugation` hold in `ℂ` with `I = Complex.I`, `h = 1/√2` -/
+example : Complex.I * Complex.I = -1 ∧ star Complex.I = -Complex.I ∧
+    star ((Real.sqrt 2)⁻¹ : ℂ) = ((Real.sqrt 2)⁻¹ : ℂ) ∧
+    2 * (((Real.sqrt 2)⁻¹ : ℂ) * ((Real.sqrt 2)⁻¹ : ℂ)) = 1 := by
+  refine ⟨Complex.I_mul_I, Complex.conj_I, ?_, ?_⟩
+  · rw [← Complex.ofReal_inv]; exact Complex.conj_ofReal _
+  · rw [← Complex.ofReal_inv, ← Complex.ofReal_mul, ← mul_inv, Real.mul_self_sqrt (by norm_num)]
+    norm_num
 
 /-- all 24 one-qubit tableaux: Sp(2,F2) (enumerated by `from_int_tuple`) × all 4 phase vectors -/
 def tabs1 : List Tab :=
